@@ -46,6 +46,8 @@ REQUIRED = [
     "handler_wait:timeout-scope",
     "handler_wait:move-on-scope",
     "datagrams_checked",
+    "serve_restarted_on_same_listener",
+    "datagrams_before_serve",
     "listener:scripted",
     "listener:real-protocol",
 ]
@@ -66,7 +68,26 @@ def gen_script(rng: random.Random) -> dict:
         bad = rng.random() < 0.12
         arrivals.append({"t": t, "addr": a, "seq": seqs[a], "bad": bad, "work": rng.choice([0, 0, 0.5, 1.0, 1.5])})
         seqs[a] += 1
+    # datagrams that reach the socket before serve() is awaited, and a stop + restart of serve() on the same (open) listener at a
+    # quiet moment (everything received so far has been handled): nothing may be handled twice or lost across the restart
+    early = rng.choice([0, 0, 1, 2, 3])
+    for x in arrivals[:early]:
+        x["t"] = 0.0
+        x["early"] = True
+    restart_at = None
+    lo = max(1, early)
+    if lo <= n - 1 and rng.random() < 0.3:
+        split = rng.randint(lo, n - 1)
+        fin: dict = {}
+        for x in arrivals[:split]:
+            st = max(x["t"], fin.get(x["addr"], 0.0))
+            fin[x["addr"]] = st + (0 if x["bad"] else x["work"])
+        restart_at = (int(max(fin.values()) * 2) + 1) / 2 + 1.5
+        delta = max(0.0, restart_at + 0.5 - arrivals[split]["t"])
+        for x in arrivals[split:]:
+            x["t"] += delta
     return {
+        "restart_at": restart_at,
         "arrivals": arrivals,
         "k": [rng.choice([1, 2, 3, None]) for _ in range(A)],
         "timeout": [rng.choice([None, None, 0.5, 2.0, 0, 0]) for _ in range(A)],
@@ -198,35 +219,60 @@ def run_script(sc: dict) -> dict:
                 live[a] -= 1
                 log.append(("gen-finally", a, gid, now()))
 
-        serve = asyncio.ensure_future(server.serve(handler))
-        await asyncio.sleep(0)
-        t0 = loop.time()
-        res["t0"] = t0
-        for arr in sc["arrivals"]:
-            delay = t0 + arr["t"] - loop.time()
-            if delay > 0:
-                await asyncio.sleep(delay)
+        def send_in(arr):
             payload = b"\xff\xfe bad" if arr["bad"] else f"a{arr['addr']}:{arr['seq']}".encode()
             log.append(("arrive", arr["addr"], arr["seq"], now(), arr["bad"]))
             deliver(payload, ("127.0.0.1", arr["addr"]) if sc["listener"] != "scripted" else ("mem", arr["addr"]))
+
+        async def stop_serve(serve):
+            serve.cancel()
+            # harness tear-down. A polling handler (timeout(0) scope around its yield) that polls in the very iteration of this cancel
+            # swallows it (the known C13 I5 mechanism: external cancel coincident with a scope's own cancel) and then polls for ever;
+            # that is not C16's subject: cancel again until every task is gone, and record that it was needed.
+            for attempt in range(50):
+                done, _pending = await asyncio.wait([serve], timeout=1.0)
+                if done:
+                    break
+                res["teardown_recancelled"] = attempt + 1
+                for t in asyncio.all_tasks():
+                    if t is not asyncio.current_task() and not t.done():
+                        t.cancel()
+            await asyncio.gather(serve, return_exceptions=True)
+
+        t0 = loop.time()
+        res["t0"] = t0
+        for arr in sc["arrivals"]:
+            if arr.get("early"):
+                send_in(arr)  # reaches the listener before serve() is awaited
+                res["early"] = res.get("early", 0) + 1
+        serve = asyncio.ensure_future(server.serve(handler))
+        await asyncio.sleep(0)
+        restarted = False
+        for arr in sc["arrivals"]:
+            if arr.get("early"):
+                continue
+            if sc.get("restart_at") is not None and not restarted and arr["t"] > sc["restart_at"]:
+                delay = t0 + sc["restart_at"] - loop.time()
+                if delay > 0:
+                    await asyncio.sleep(delay)
+                if serve.done():
+                    break
+                await stop_serve(serve)
+                log.append(("restart", now()))
+                serve = asyncio.ensure_future(server.serve(handler))
+                await asyncio.sleep(0)
+                restarted = True
+                res["restarted"] = True
+            delay = t0 + arr["t"] - loop.time()
+            if delay > 0:
+                await asyncio.sleep(delay)
+            send_in(arr)
         # let everything drain: total work + timeouts
         await asyncio.sleep(sum(a["work"] for a in sc["arrivals"]) + 10)
         res["serve_done"] = serve.done()
         if serve.done():
             res["serve_exc"] = repr(serve.exception()) if not serve.cancelled() else "cancelled"
-        serve.cancel()
-        # harness tear-down. A polling handler (timeout(0) scope around its yield) that polls in the very iteration of this cancel
-        # swallows it (the known C13 I5 mechanism: external cancel coincident with a scope's own cancel) and then polls for ever;
-        # that is not C16's subject: cancel again until every task is gone, and record that it was needed.
-        for attempt in range(50):
-            done, _pending = await asyncio.wait([serve], timeout=1.0)
-            if done:
-                break
-            res["teardown_recancelled"] = attempt + 1
-            for t in asyncio.all_tasks():
-                if t is not asyncio.current_task() and not t.done():
-                    t.cancel()
-        await asyncio.gather(serve, return_exceptions=True)
+        await stop_serve(serve)
         res["live"] = dict(live)
         await server.aclose()
         if sc["listener"] == "scripted":
@@ -251,7 +297,9 @@ def decide(sc: dict, res: dict, ctx=None) -> str | None:
     t0 = res["t0"]
     A = len(sc["k"])
     for a in range(A):
-        arrs = [x for x in sc["arrivals"] if x["addr"] == a]
+        # arrival instants as logged by the harness (a restart of serve() may hold a delivery back a little)
+        actual = {(e[1], e[2]): e[3] - t0 for e in log if e[0] == "arrive"}
+        arrs = [dict(x, t=actual.get((x["addr"], x["seq"]), x["t"])) for x in sc["arrivals"] if x["addr"] == a]
         seen = [e for e in log if e[0] in ("req", "bad") and e[1] == a]
         # exactly once, in order
         if len(seen) != len(arrs):
@@ -290,6 +338,10 @@ def decide(sc: dict, res: dict, ctx=None) -> str | None:
         ctx.count("datagrams_checked", len(sc["arrivals"]))
         if any(x["bad"] for x in sc["arrivals"]):
             ctx.count("malformed_datagrams")
+        if res.get("restarted"):
+            ctx.count("serve_restarted_on_same_listener")
+        if res.get("early"):
+            ctx.count("datagrams_before_serve", res["early"])
         if res.get("teardown_recancelled"):
             ctx.count("harness_teardown_cancel_swallowed_by_handler_scope")
         if any(e[0] == "timeout" for e in log):
